@@ -115,7 +115,7 @@ def rand_cfgspec(rng: random.Random, max_n: int = 6, max_mazes: int = 8, filters
         # make sure the rarer argument class (proportions given as floats) is present in small batches too
         gen = rng.choice(["gen_dfs", "gen_prim"])
         n = max(n, 3)
-        kw = {rng.choice(["accessible_cells", "max_tree_depth"]): rng.choice([1.0, 0.5, 0.75, round(rng.uniform(0.4, 1.0), 2)])}
+        kw = {rng.choice(["accessible_cells", "max_tree_depth"]): rng.choice([1.0, 1.0, 0.5, 0.75, round(rng.uniform(0.4, 1.0), 2)])}
         if rng.random() < 0.3:
             kw["accessible_cells"] = rng.choice([1.0, 0.6, 0.9])
     return {
